@@ -15,6 +15,7 @@ CONF = {
     "C07": {"quick": 800, "thorough": 40000, "batch": 50, "min_distinct": 20, "loops": [1, 2], "env_alt": [{}, {"GODEBUG": "asynctimerchan=0"}]},
     "C08": {"quick": 480, "thorough": 20000, "batch": 30, "min_distinct": 20, "loops": [1, 2], "env_alt": [{}, {"GODEBUG": "asynctimerchan=0"}]},
     "C10": {"quick": 480, "thorough": 20000, "batch": 30, "min_distinct": 8, "loops": [1, 1, 2]},
+    "C17": {"quick": 640, "thorough": 30000, "batch": 40, "min_distinct": 20, "loops": [1, 2], "engine": "muxmon", "pkg": "mux", "test": "TestVerifMux"},
     "C14": {"quick": 480, "thorough": 20000, "batch": 30, "min_distinct": 20, "loops": [1, 2]},
     "C13": {"quick": 240, "thorough": 8000, "batch": 15, "min_distinct": 12, "loops": [2, 1, 2]},
     "C12": {"quick": 384, "thorough": 12800, "batch": 32, "min_distinct": 40, "loops": [1, 2]},
@@ -33,15 +34,26 @@ TEST = "TestVerifConn"
 ENGINE = "connmon"
 
 
-def build():
-    return vlib.build(ENGINE, porcupine=False)
+def build(prop=None):
+    conf = CONF.get(prop, {}) if prop else {}
+    return vlib.build(conf.get("engine", ENGINE), pkg=conf.get("pkg", "."))
+
+
+def build_all():
+    """setup: compile every engine served by this driver once (warms the build cache)."""
+    seen = set()
+    for prop, conf in CONF.items():
+        key = (conf.get("engine", ENGINE), conf.get("pkg", "."))
+        if key not in seen:
+            seen.add(key)
+            vlib.build(key[0], pkg=key[1])
 
 
 def run(prop, tier, seed, replay=None):
     t0 = time.time()
     conf = CONF[prop]
     try:
-        binary, bt = build()
+        binary, bt = build(prop)
     except vlib.BuildError as e:
         say("INCONCLUSIVE property=%s build failed" % prop)
         say(str(e))
@@ -70,7 +82,7 @@ def run(prop, tier, seed, replay=None):
             alts = conf.get("env_alt")
             if alts:
                 env.update(alts[(bi // 2) % len(alts)])
-            r = vlib.run_child(binary, TEST, env, wd * cnt + 120, "%s-b%d-%d" % (prop, frm, guard))
+            r = vlib.run_child(binary, conf.get("test", TEST), env, wd * cnt + 120, "%s-b%d-%d" % (prop, frm, guard))
             recs += r["records"]
             st = [x for x in r["records"] if x.get("kind") == "stats"]
             if not st:
@@ -117,7 +129,7 @@ def verdict(prop, tier, seed, recs, crashes, total, bt, t0, conf):
     hpanics = [x for x in recs if x.get("kind") == "harness_panic"]
     inconcl_recs = [x for x in recs if x.get("kind") == "inconclusive"]
 
-    known = vlib.known_for(prop, ENGINE)
+    known = vlib.known_for(prop, conf.get("engine", ENGINE))
     known_lines, viol_lines = [], []
     nviol = 0
     known_hits = {}
@@ -242,7 +254,7 @@ def do_replay(prop, binary, path):
     runs = int(os.environ.get("VERIF_REPLAY_RUNS", "50"))
     for i in range(runs):
         env = {"VERIF_SEED": str(seed), "VERIF_FROM": str(case), "VERIF_COUNT": "1", "VERIF_SCEN": v.get("scenario", prop), "VERIF_LOOPS": "2"}
-        r = vlib.run_child(binary, TEST, env, 200, "replay-%d" % i)
+        r = vlib.run_child(binary, CONF[prop].get("test", TEST), env, 200, "replay-%d" % i)
         vs = [x for x in r["records"] if x.get("kind") == "violation" and x.get("property") == prop]
         if vs or not [x for x in r["records"] if x.get("kind") == "stats"]:
             hits += 1
